@@ -176,3 +176,38 @@ func VerifC13_ClientAuth() {
 	verif.Assert(mode2 == mode, "the client-auth mode depends on a setting other than verify_client / require_client_cert (insecure_skip, server_name, ALPN)")
 	verif.Cover("end")
 }
+
+// VerifC13_ALPNList: the configured ALPN list of a context - up to four entries, each one of
+// the protocols MOSN knows (h2, http/1.1, sofa) or an entry it does not know (a mesh protocol
+// name, an entry with a stray blank), in every order. The context offers exactly the known
+// entries, in their configured order: an unknown entry is skipped and takes nothing that
+// follows it with it (the ALPN intersection rule selects a context by what it offers).
+func VerifC13_ALPNList() {
+	cat := []string{"h2", "http/1.1", "sofa", "istio-peer-exchange", " http/1.1"}
+	known := []bool{true, true, true, false, false}
+	n := 1 + verif.Choose("entries", 4)
+	var parts []string
+	var want []string
+	for i := 0; i < n; i++ {
+		k := verif.Choose("entry", len(cat))
+		parts = append(parts, cat[k])
+		if known[k] {
+			want = append(want, cat[k])
+		}
+	}
+	s := parts[0]
+	for _, p := range parts[1:] {
+		s += "," + p
+	}
+	c, err := tlsConfigTemplate(&v2.TLSConfig{Status: true, ALPN: s})
+	verif.Assert(err == nil && c != nil, "a context with an ALPN list was refused")
+	if c == nil {
+		return
+	}
+	same := len(c.NextProtos) == len(want)
+	for i := 0; same && i < len(want); i++ {
+		same = c.NextProtos[i] == want[i]
+	}
+	verif.Assert(same, "the context does not offer exactly the known protocols of its ALPN list, in order (an unknown entry took later entries with it)")
+	verif.Cover("end")
+}
